@@ -35,4 +35,6 @@ pub fn feed_snapshot<H: Hasher>(s: &Snapshot, h: &mut H) {
     s.connack_timeout_in_ms.hash(h);
     s.slow_start_ack_count.hash(h);
     s.settings.hash(h);
+    s.decoder.hash(h);
+    s.encoder_steps_left.hash(h);
 }
